@@ -41,6 +41,9 @@ type nniObs struct {
 }
 
 // c17Enumerate runs the enumeration on t and checks every step. Returns the per-proposal observations.
+// one generator object for the whole case: nothing it may remember about a tree can survive an edit of that tree
+var c17Rearranger = &tree.NNIRearranger{}
+
 func c17Enumerate(o *Obs, t *tree.Tree, tx *ref.Taxa, collectFirst bool, ctx string, tag []string) ([]nniObs, bool) {
 	orig := t.Newick()
 	origSplits := modelOf(t).Splits(tx)
@@ -97,7 +100,7 @@ func c17Enumerate(o *Obs, t *tree.Tree, tx *ref.Taxa, collectFirst bool, ctx str
 	completed := true
 	if collectFirst {
 		var rs []tree.Rearrangement
-		(&tree.NNIRearranger{}).Rearrange(t, func(re tree.Rearrangement) bool { rs = append(rs, re); return true })
+		c17Rearranger.Rearrange(t, func(re tree.Rearrangement) bool { rs = append(rs, re); return true })
 		for i, re := range rs {
 			n++
 			if !one(i, re) {
@@ -106,7 +109,7 @@ func c17Enumerate(o *Obs, t *tree.Tree, tx *ref.Taxa, collectFirst bool, ctx str
 			}
 		}
 	} else {
-		(&tree.NNIRearranger{}).Rearrange(t, func(re tree.Rearrangement) bool {
+		c17Rearranger.Rearrange(t, func(re tree.Rearrangement) bool {
 			n++
 			if !one(n-1, re) {
 				completed = false
@@ -204,6 +207,18 @@ func runC17(c *Ctx, idx int, o *Obs) {
 		c17Enumerate(o, t, tx, collect, "rooted tree", tag)
 		o.Ev("enumerations", 1)
 	} else {
+		// enumerate, edit the same tree object (a new tip grafted in the middle of a branch keeps it binary), enumerate again
+		if _, ok := c17Enumerate(o, t, tx, collect, "unrooted tree, first enumeration", tag); ok {
+			es := t.Edges()
+			nt := t.NewNode()
+			nt.SetName("grafted_tip")
+			if _, _, _, err := t.GraftTipOnEdge(nt, es[r.Intn(len(es))]); err == nil {
+				tx2 := ref.NewTaxa(modelOf(t).Tips())
+				c17Enumerate(o, t, tx2, collect, "unrooted tree, second enumeration of the same object after GraftTipOnEdge", tag)
+				o.Ev("enumerations_after_edit", 1)
+			}
+		}
+		t = mustParse(text)
 		// the pseudo-root at every inner node in turn
 		inn := innerNodes(t)
 		order := r.Perm(len(inn))
